@@ -24,7 +24,8 @@ def asOut : SExp → Option (Except Err Graph)
 def bracket (s : String) : String := "<" ++ s ++ ">"
 
 /-- `(bridge <ignore_aam 0|1> <graph> [impl])` → `(ok <graph | (raised K)> spec_model spec_impl closed=0|1 wf=0|1)`
-    (`wf` = the hypotheses `C11.wellFormed g`, `C11.simple g` of `C19.bridge_spec_holds` / `bridge_lossless`)
+    (`wf` = the hypotheses `C11.wellFormed g`, `C11.simple g` of `C19.bridge_spec_holds` / `bridge_lossless`;
+     `noloops` = the hypothesis `noSelfLoops g` of `bridge_lossless`)
     `(wl <iterations> <graph>)` → `(ok <hash under the bracket digest, hex> 1 _)` -/
 def handle : List SExp → Option SExp
   | .atom "bridge" :: ia :: g :: rest => do
@@ -38,7 +39,8 @@ def handle : List SExp → Option SExp
         | _ => pure none'
       pure (.list [.atom "ok", ofOut model, ofBool (specCheck ia g model), si,
                    .atom (if edgesClosed g then "closed=1" else "closed=0"),
-                   .atom (if C11.wellFormed g && C11.simple g then "wf=1" else "wf=0")])
+                   .atom (if C11.wellFormed g && C11.simple g then "wf=1" else "wf=0"),
+                   .atom (if noSelfLoops g then "noloops=1" else "noloops=0")])
   | .atom "wl" :: k :: g :: _ => do
       let k ← asNat k
       let g ← asGraph g
